@@ -17,7 +17,7 @@ EXTENDS BrokerOps, Sequences, FiniteSets, SequencesExt, FiniteSetsExt, Json
 
 CONSTANTS
     Clients,        \* client identifiers (strings)
-    Conns,          \* connection names (strings), each used at most once
+    ConnOrder,      \* sequence of connection names (strings), each used at most once, in this order
     Topics,         \* set of topic names (level sequences)
     Filters,        \* set of topic filters (level sequences; $share/g/... for shared)
     QosSet,         \* QoS values clients use
@@ -33,6 +33,7 @@ CONSTANTS
     Enabled         \* set of action names switched on in this configuration
 
 None == "none"
+Conns == {ConnOrder[i] : i \in 1..Len(ConnOrder)}
 
 VARIABLES
     conn,       \* connection -> [st, c, clean, rm, will]  st \in {"free","open","closed"}
@@ -269,11 +270,13 @@ Init ==
     /\ wire = [k \in Conns |-> <<>>] /\ log = <<>> /\ fwd = <<>> /\ hist = <<>>
 
 Next ==
-    \/ \E k \in Conns, c \in Clients, clean \in BOOLEAN, rm \in RecvMaxSet, x \in ExpirySet, wd \in WillDelaySet \cup {None} :
-          Connect(k, c, clean, rm, x, wd)
+    \* (connections are interchangeable: the next one used is always the first free one of ConnOrder)
+    \/ \E c \in Clients, clean \in BOOLEAN, rm \in RecvMaxSet, x \in ExpirySet, wd \in WillDelaySet \cup {None} :
+          \E i \in 1..Len(ConnOrder) : /\ conn[ConnOrder[i]].st = "free" /\ \A j \in 1..(i - 1) : conn[ConnOrder[j]].st # "free"
+                                       /\ Connect(ConnOrder[i], c, clean, rm, x, wd)
     \/ \E k \in Conns, f \in Filters, q \in QosSet, nl \in BOOLEAN : Subscribe(k, f, q, nl /\ f[1] # "$share")
     \/ \E k \in Conns, f \in Filters : Unsubscribe(k, f)
-    \/ \E k \in Conns, t \in Topics, q \in QosSet, r \in {FALSE}, pid \in 1..2 : Publish(k, t, q, r, IF q = 0 THEN 0 ELSE pid)
+    \/ \E k \in Conns, t \in Topics, q \in QosSet, r \in {FALSE}, pid \in 1..2 : (q = 2 \/ pid = 1) /\ Publish(k, t, q, r, IF q = 0 THEN 0 ELSE pid)
     \/ \E k \in Conns, pid \in 1..2 : Pubrel(k, pid)
     \/ \E k \in Conns, i \in 1..3 : Ack(k, i)
     \/ \E k \in Conns, n \in BOOLEAN : Close(k, n)
@@ -345,6 +348,10 @@ DirectionsIndependent ==
 DeferredEventuallySent ==
     \A c \in Clients : [](( \E i \in 1..Len(outq[c]) : outq[c][i].phase = "deferred") /\ Online(c)
                            => <>(~Online(c) \/ ~(\E i \in 1..Len(outq[c]) : outq[c][i].phase = "deferred")))
+
+(* use B: emit the operation list of every explored history of maximal length (as an "invariant" that  *)
+(* always holds); the runner turns each line into a history for the real broker                          *)
+EmitLeaf == (Len(hist) = MaxHist) => PrintT(<<"HIST", ToJson(hist)>>)
 
 (* bounded exploration *)
 Bound == Len(hist) <= MaxHist
